@@ -30,6 +30,9 @@ struct Params {
     cut: usize,
     /// action string over P (poll the recv future once, creating it if none is open), D (next chunk arrives), X (drop the open future)
     actions: String,
+    /// what has not arrived by the end of the action string arrives only once the final recv call is
+    /// parked (it then depends on being woken through the waker of THAT call)
+    late: bool,
 }
 
 fn scenario(pr: &Params) -> Verdict {
@@ -58,6 +61,7 @@ fn scenario(pr: &Params) -> Verdict {
     let (res2, viol2) = (results.clone(), viol.clone());
     let actions: Vec<char> = pr.actions.chars().collect();
     let to_lib = c.to_lib;
+    let late = pr.late;
     world::spawn_app("app", async move {
         let mut sock = AnySocket::new(ty, None);
         // the handshake chunk is delivered by the scheduler; the message chunks only by D actions
@@ -93,7 +97,7 @@ fn scenario(pr: &Params) -> Verdict {
                     // one recv call: polled at the P actions, deliveries at the D actions, dropped at X (or at the end)
                     let mut completed: Option<zeromq::ZmqResult<zeromq::ZmqMessage>> = None;
                     {
-                        let mut fut = Box::pin(sock.recv());
+                        let mut fut = Box::pin(world::own_waker(sock.recv()));
                         while i < actions.len() && actions[i] != 'X' {
                             if actions[i] == 'D' {
                                 world::force_deliver(to_lib);
@@ -156,8 +160,10 @@ fn scenario(pr: &Params) -> Verdict {
                 Err(e) => viol2.borrow_mut().push(("req/unexpected-error".into(), e3::err_class(e))),
             }
         }
-        // everything arrives now; recv to completion
-        while world::force_deliver(to_lib) {}
+        // everything arrives now (or, in the late variant, while the next recv is parked); recv to completion
+        if !late {
+            while world::force_deliver(to_lib) {}
+        }
         for _ in 0..3 {
             if ty == Ty::Req && !req_outstanding {
                 if req_i >= 1 {
@@ -188,7 +194,7 @@ fn scenario(pr: &Params) -> Verdict {
     let end = world::run(e3::HORIZON);
     let mut v = Verdict::default();
     v.truncated = end != world::RunEnd::Quiescent;
-    let what = format!("{} socket, peer's two messages cut at offset {}, actions {:?} (P poll recv once, D next chunk arrives, X drop the pending recv)", ty.name(), pr.cut, pr.actions);
+    let what = format!("{} socket, peer's two messages cut at offset {}, actions {:?} (P poll recv once, D next chunk arrives, X drop the pending recv){}", ty.name(), pr.cut, pr.actions, if pr.late { ", the rest arriving only while the final recv is parked" } else { "" });
     for p in world::panics() {
         v.violate("panic", format!("{}: {}", what, p));
     }
@@ -304,7 +310,7 @@ fn rep_state_scenario(actions: &str, second_request_early: bool) -> Verdict {
 }
 
 fn pj(p: &Params) -> Value {
-    json!({"type": p.ty.name(), "cut": p.cut, "actions": p.actions})
+    json!({"type": p.ty.name(), "cut": p.cut, "actions": p.actions, "late": p.late})
 }
 
 fn pf(v: &Value) -> Option<Params> {
@@ -312,6 +318,7 @@ fn pf(v: &Value) -> Option<Params> {
         ty: Ty::from_name(v["type"].as_str()?)?,
         cut: v["cut"].as_u64()? as usize,
         actions: v["actions"].as_str()?.to_string(),
+        late: v["late"].as_bool().unwrap_or(false),
     })
 }
 
@@ -372,10 +379,16 @@ pub fn run(tier: Tier, replay: Option<String>) -> i32 {
         for cut in 0..region {
             let acts = if cut == 0 { &one } else { &two };
             for a in acts {
-                let pr = Params { ty, cut, actions: a.clone() };
-                let pr2 = pr.clone();
-                n += 1;
-                jobs.push(e3::job(format!("C14/{}/{}/{}", ty.name(), cut, a), pj(&pr), 0, 4, move || scenario(&pr2)));
+                for late in [false, true] {
+                    // the late variant differs only if something is left to arrive
+                    if late && a.matches('D').count() >= if cut == 0 { 1 } else { 2 } {
+                        continue;
+                    }
+                    let pr = Params { ty, cut, actions: a.clone(), late };
+                    let pr2 = pr.clone();
+                    n += 1;
+                    jobs.push(e3::job(format!("C14/{}/{}/{}/{}", ty.name(), cut, a, late), pj(&pr), 0, 4, move || scenario(&pr2)));
+                }
             }
         }
     }
@@ -403,7 +416,7 @@ pub fn run(tier: Tier, replay: Option<String>) -> i32 {
     ck.cov("traces_validated_against_impl", ex);
     ck.cov("action_strings", (two.len() + one.len()) as u64);
     ck.cov("exhaustive", true);
-    ck.cov("explanation", format!("for PULL, SUB, DEALER, ROUTER, REP, XPUB and REQ: the peer's two messages (one multipart) are cut at EVERY byte offset into two chunks; the application runs EVERY well-formed action string of length <= {} over {{P: poll the recv future once (creating it if none is open), D: the next chunk arrives, X: drop the pending future}} with at most {} recv calls ({} strings) — i.e. every cancellation point relative to every arrival position — then lets everything arrive and calls recv to completion: the results must be exactly the peer's messages, in order, once. REQ: after send(q0), abandoned recv calls must leave the socket owing that recv: a new send must fail with ReturnToSender (message intact) and recv must return reply 0; with the reply arriving before / during / after the abandoned call. REP: with a request received and its reply owed, every string of polled-and-dropped recv calls (with or without the next request already on the wire) must leave the reply acceptable and routed to the requester, and the next request deliverable. The fair queue's part (a stream is checked out and returned within one synchronous poll) is additionally covered by the always-enabled spurious Poll in E2 (C05/C06).", max_len, max_calls, two.len() + one.len()));
+    ck.cov("explanation", format!("for PULL, SUB, DEALER, ROUTER, REP, XPUB and REQ: the peer's two messages (one multipart) are cut at EVERY byte offset into two chunks; the application runs EVERY well-formed action string of length <= {} over {{P: poll the recv future once (creating it if none is open), D: the next chunk arrives, X: drop the pending future}} with at most {} recv calls ({} strings) — i.e. every cancellation point relative to every arrival position — then lets everything arrive — before the next recv call, or (second variant) only once that call is parked — and calls recv to completion; every recv call runs under a waker of its own that is dead once the call has been dropped (as when the socket moves to another task), and the final calls are re-polled only when that waker fires: the results must be exactly the peer's messages, in order, once. REQ: after send(q0), abandoned recv calls must leave the socket owing that recv: a new send must fail with ReturnToSender (message intact) and recv must return reply 0; with the reply arriving before / during / after the abandoned call. REP: with a request received and its reply owed, every string of polled-and-dropped recv calls (with or without the next request already on the wire) must leave the reply acceptable and routed to the requester, and the next request deliverable. The fair queue's part (a stream is checked out and returned within one synchronous poll) is additionally covered by the always-enabled spurious Poll in E2 (C05/C06).", max_len, max_calls, two.len() + one.len()));
     ck.assume("the cancellation point of a future is between two polls; each poll is atomic");
     ck.conclude()
 }
